@@ -321,22 +321,53 @@ def translate_check_types(cls, name, is_async):
     return steps
 
 
+CHECK_CALL = ('assert_value_matches_type(value={v}, type_={t}, err=self.func.err, type_vars=self.type_vars{k}, context=self._context)')
+
+
+def stmts_are(stmts, texts, where):
+    """the statement list is exactly the expected one (positions, comments and docstrings aside)"""
+    stmts = strip_doc(list(stmts))
+    if len(stmts) != len(texts):
+        bad(f'{where}: {len(stmts)} statements where exactly {len(texts)} are modelled')
+    for n, t in zip(stmts, texts):
+        if t is not None and not same(n, t, 'stmt'):
+            bad(f'{where}: line {n.lineno} is no longer `{t}`')
+
+
+def no_jumps(loop, where):
+    for n in ast.walk(loop):
+        if isinstance(n, (ast.Continue, ast.Break, ast.Return)):
+            bad(f'{where}: `{type(n).__name__.lower()}` inside the loop at line {n.lineno} (a value would leave the loop unchecked)')
+    if loop.orelse:
+        bad(f'{where}: the loop has an else clause')
+
+
+def is_ptc_raise(n):
+    return (isinstance(n, ast.Raise) and n.cause is None and isinstance(n.exc, ast.Call) and is_name(n.exc.func, 'PedanticTypeCheckException')
+            and len(n.exc.args) == 1 and not n.exc.keywords)
+
+
 def check_type_param_shape(cls):
-    """the decision chain of _check_type_param that Model.Pedantic.pass_named models by hand: per parameter, the value comes from
-    the keyword (never for a positional-only parameter), else from the next positional value (positional parameters only, whether
-    or not there is a default), else from the default.  The shapes before the repairs are refused by name."""
+    """FunctionCall._check_type_param, statement by statement, as Model.Pedantic.pass_named models it by hand: per parameter, the
+    value comes from the keyword (never for a positional-only parameter), else from the next positional value (positional
+    parameters only, whether or not there is a default), else from the default; then the ONE call of the checker.  The shapes
+    before the repairs are refused by name; any other statement, branch body or jump is refused as well."""
     f = find_in(cls, '_check_type_param', UNIT)
     W = '_check_type_param'
-    loops = [n for n in f.body if isinstance(n, ast.For)]
-    if len(loops) != 1 or not same(loops[0].iter, 'params.items()'):
-        bad(f'{W}: not a single loop over params.items()')
-    body = loops[0].body
+    top = strip_doc(f.body)
+    loops = [n for n in top if isinstance(n, ast.For)]
+    if len(loops) != 1 or not same(loops[0].iter, 'params.items()') or ast.unparse(loops[0].target) not in ('key, param', '(key, param)'):
+        bad(f'{W}: not a single loop `for key, param in params.items()`')
+    loop = loops[0]
+    no_jumps(loop, W)
+    body = loop.body
     chains = [n for n in body if isinstance(n, ast.If) and n.orelse]
     if len(chains) != 1:
         bad(f'{W}: expected exactly one if / elif chain choosing the value to check')
-    tests, node = [], chains[0]
+    tests, bodies, node = [], [], chains[0]
     while True:
         tests.append(node.test)
+        bodies.append(node.body)
         if len(node.orelse) == 1 and isinstance(node.orelse[0], ast.If):
             node = node.orelse[0]
         else:
@@ -353,23 +384,61 @@ def check_type_param_shape(cls):
                 'param.default is not inspect.Signature.empty']
     if len(tests) != 3 or not all(same(t, e) for t, e in zip(tests, expected)):
         bad(f'{W}: the if / elif chain is no longer [by keyword | positional | default | unfilled]')
-    if not (len(last) == 1 and isinstance(last[0], ast.Raise)):
-        bad(f'{W}: the last branch no longer raises (unfilled parameter)')
-    defs = {ast.unparse(n.targets[0]): n.value for n in list(f.body) + list(body) if isinstance(n, ast.Assign) and len(n.targets) == 1}
-    if not ('takes_keyword' in defs and same(defs['takes_keyword'], 'param.kind is not inspect.Parameter.POSITIONAL_ONLY')):
-        bad(f'{W}: takes_keyword is no longer `param.kind is not inspect.Parameter.POSITIONAL_ONLY`')
-    if not ('takes_positional' in defs and same(defs['takes_positional'], '(inspect.Parameter.POSITIONAL_ONLY, inspect.Parameter.POSITIONAL_OR_KEYWORD)')):
-        bad(f'{W}: takes_positional is no longer (POSITIONAL_ONLY, POSITIONAL_OR_KEYWORD)')
-    marks = [n for n in body if isinstance(n, ast.If) and not n.orelse]
-    if not (len(marks) == 1 and same(marks[0].test, 'takes_keyword') and len(marks[0].body) == 1
-            and same(marks[0].body[0], 'self._already_checked_kwargs.append(key)', 'stmt')):
+    stmts_are(bodies[0], ['actual_value = self.kwargs[key]'], f'{W}, branch "by keyword"')
+    stmts_are(bodies[1], ['actual_value = self.args[arg_index]', 'arg_index += 1'], f'{W}, branch "positional"')
+    stmts_are(bodies[2], ['actual_value = param.default'], f'{W}, branch "default"')
+    if not (len(last) == 1 and is_ptc_raise(last[0])):
+        bad(f'{W}: the last branch is no longer the single `raise PedanticTypeCheckException(...)` (unfilled parameter)')
+    # the whole function: statements before the loop, the loop body around the chain, the statement after the loop
+    stmts_are(top, ['arg_index = 1 if self.func.is_instance_method else 0',
+                    'takes_positional = (inspect.Parameter.POSITIONAL_ONLY, inspect.Parameter.POSITIONAL_OR_KEYWORD)',
+                    None,
+                    'self._num_of_args_bound_to_named_params = arg_index'], W)
+    if top[2] is not loop:
+        bad(f'{W}: the loop is not the third statement')
+    stmts_are(body, ['takes_keyword = param.kind is not inspect.Parameter.POSITIONAL_ONLY',
+                     None,
+                     'self._assert_param_has_type_annotation(param=param)',
+                     None,
+                     CHECK_CALL.format(v='actual_value', t='param.annotation', k=', key=key')], f'{W}, loop body')
+    mark = body[1]
+    if not (isinstance(mark, ast.If) and not mark.orelse and same(mark.test, 'takes_keyword') and len(mark.body) == 1
+            and same(mark.body[0], 'self._already_checked_kwargs.append(key)', 'stmt')):
         bad(f'{W}: the name of a parameter is no longer marked as checked exactly when the parameter takes keywords')
+    if body[3] is not chains[0]:
+        bad(f'{W}: the if / elif chain is not the fourth statement of the loop')
+
+
+def check_star_passes_shape(cls):
+    """_check_types_args / _check_types_kwargs, statement by statement (Model.Pedantic.pass_varpos / pass_varkw): every element of
+    self.args behind the named ones / every keyword not yet checked goes through the ONE call of the checker"""
+    HEAD = ['if not params:\n    return', 'param = list(params.values())[0]', 'self._assert_param_has_type_annotation(param=param)']
+    f = find_in(cls, '_check_types_args', UNIT)
+    W = '_check_types_args'
+    top = strip_doc(f.body)
+    stmts_are(top, HEAD + ['expected = param.annotation', None], W)
+    loop = top[-1]
+    if not (isinstance(loop, ast.For) and ast.unparse(loop.target) == 'arg' and same(loop.iter, 'self.args[self._num_of_args_bound_to_named_params:]')):
+        bad(f'{W}: the last statement is no longer `for arg in self.args[self._num_of_args_bound_to_named_params:]`')
+    no_jumps(loop, W)
+    stmts_are(loop.body, [CHECK_CALL.format(v='arg', t='expected', k='')], f'{W}, loop body')
+    f = find_in(cls, '_check_types_kwargs', UNIT)
+    W = '_check_types_kwargs'
+    top = strip_doc(f.body)
+    stmts_are(top, HEAD + [None], W)
+    loop = top[-1]
+    if not (isinstance(loop, ast.For) and ast.unparse(loop.target) == 'kwarg' and same(loop.iter, 'self.not_yet_check_kwargs')):
+        bad(f'{W}: the last statement is no longer `for kwarg in self.not_yet_check_kwargs`')
+    no_jumps(loop, W)
+    stmts_are(loop.body, ['actual_value = self.kwargs[kwarg]',
+                          CHECK_CALL.format(v='actual_value', t='param.annotation', k=', key=kwarg')], f'{W}, loop body')
 
 
 def translate_function_call():
     src, tree = load(FC)
     cls = find_class(tree, 'FunctionCall', UNIT)
     check_type_param_shape(cls)
+    check_star_passes_shape(cls)
     for name, text in {'func': 'self._func', 'args': 'self._args', 'kwargs': 'self._kwargs',
                        'params_without_self': 'self._params_without_self',
                        'not_yet_check_kwargs': '{k: v for k, v in self._kwargs.items() if k not in self._already_checked_kwargs}'}.items():
